@@ -1,5 +1,6 @@
 """C10 — nrpickler round-trips any graph to an isomorphic, usable, detached copy."""
 import io
+import re
 import json
 import os
 import pickle
@@ -19,6 +20,11 @@ from .. import picklesub as PS
 from edgegraph.structure import Vertex
 from edgegraph.traversal import helpers
 from edgegraph.output import nrpickler
+
+import warnings
+# dill announces its by-reference fallback for classes that refer to their own instances (cases with a class attribute into the
+# graph, finding D23) on stderr: noise for a check whose output is read line by line
+warnings.filterwarnings("ignore", category=getattr(dill, "PicklingWarning", Warning), module="dill")
 
 
 class _Timeout(BaseException):
@@ -507,31 +513,31 @@ def trace_recursive(root, proto):
     return T, table, top
 
 
+_PUT_ASCII = re.compile(rb"^p[0-9]+\n$")
+
+
+def _is_put(b):
+    """one complete PUT-family opcode (what memoize() writes): PUT / BINPUT / LONG_BINPUT / MEMOIZE"""
+    return bool(_PUT_ASCII.match(b)) or (len(b) == 2 and b[:1] == b"q") or (len(b) == 5 and b[:1] == b"r") or b == b"\x94"
+
+
 def trace_nonrecursive(root, proto, T):
-    """the chunks the real _NonrecursivePickler writes, in order; PUT/MEMOIZE writes as put(k)"""
-    buf = io.BytesIO()
-    p = nrpickler._NonrecursivePickler(buf, protocol=proto)
+    """the chunks the real _NonrecursivePickler hands to the FILE, in order (observed at the file object, the pickler's public
+    boundary: nothing inside the pickler is hooked, so its internals may be renamed or re-cut freely); PUT/MEMOIZE writes are
+    recognised by their bytes and appear as put(k)"""
     stream = []
-    state = {"memo": False, "count": 0}
-    orig_realwrite = p.realwrite
+    state = {"count": 0}
 
-    def realwrite(*args):
-        if state["memo"]:
-            stream.append(2 * state["count"] + 1)
-        else:
-            stream.append(T.chunk(args[0]))
-        return orig_realwrite(*args)
-    p.realwrite = realwrite
-    orig_realmemoize = p.realmemoize
-
-    def realmemoize(obj):
-        state["memo"] = True
-        try:
-            return orig_realmemoize(obj)
-        finally:
-            state["memo"] = False
-            state["count"] += 1
-    p.realmemoize = realmemoize
+    class Tap(io.BytesIO):
+        def write(self, b):
+            b = bytes(b)
+            if _is_put(b):
+                stream.append(2 * state["count"] + 1)
+                state["count"] += 1
+            else:
+                stream.append(T.chunk(b))
+            return super().write(b)
+    p = nrpickler._NonrecursivePickler(Tap(), protocol=proto)
     p.dump(root)
     return stream, state["count"]
 
